@@ -24,3 +24,38 @@ package upstream
 //@   ensures ret(pipelineExchange, 0, 1) == nil && aftercall(pipelineExchange, 0, tcbit(*ret(pipelineExchange, 0, 0))) ==> calls(reuseExchange) == 1 && calls(ReleaseBuf) == 1
 //@   ensures calls(reuseExchange) == 1 ==> arg(reuseExchange, 0, 0) == u.t && arg(reuseExchange, 0, 2) == q && result_0 == ret(reuseExchange, 0, 0) && result_1 == ret(reuseExchange, 0, 1)
 //@   ensures calls(ReleaseBuf) == 1 ==> arg(ReleaseBuf, 0, 0) == ret(pipelineExchange, 0, 0)
+
+// ---------------------------------------------------------------------------
+// C18: address helpers. The grammar of host:port strings belongs to the standard
+// library (abstract functions shpOK/shpHost/shpPort, puOK/puVal, jhp, itoa in
+// /verif/spec/std.gspec); what is proved is that mosdns passes on exactly what
+// the user wrote: no character is dropped, dial_addr wins, the scheme default is
+// used only when no port was given.
+
+//@ spec func bracketed(s string) bool = len(s) >= 2 && s[0] == '[' && s[len(s)-1] == ']'
+
+//@ func tryTrimIpv6Brackets [C18]
+//@   ensures bracketed(s) ==> result == s[1:len(s)-1]
+//@   ensures !bracketed(s) ==> result == s
+
+// host/port split of an address as trySplitHostPort must compute it
+//@ spec func tsErr(s string) bool = shpOK(s) && !puOK(shpPort(s), 10, 16)
+//@ spec func tsHost(s string) string = ite(shpOK(s), shpHost(s), s)
+//@ spec func tsPort(s string) int = ite(shpOK(s), puVal(shpPort(s), 10, 16), 0)
+
+//@ func trySplitHostPort [C18]
+//@   ensures (result_2 != nil) == tsErr(s)
+//@   ensures result_2 == nil ==> result_0 == tsHost(s) && result_1 == tsPort(s)
+
+//@ spec func effAddr(urlHost string, dialAddr string) string = ite(len(dialAddr) > 0, dialAddr, urlHost)
+
+//@ func parseDialAddr [C18]
+//@   ensures (result_2 != nil) == tsErr(effAddr(urlHost, dialAddr))
+//@   ensures result_2 == nil ==> result_0 == tsHost(effAddr(urlHost, dialAddr))
+//@   ensures result_2 == nil ==> result_1 == ite(tsPort(effAddr(urlHost, dialAddr)) == 0, defaultPort, tsPort(effAddr(urlHost, dialAddr)))
+
+//@ func joinPort [C18]
+//@   ensures result == jhp(host, itoa(port))
+
+//@ func tryRemovePort [C18]
+//@   ensures result == ite(shpOK(s), shpHost(s), s)
